@@ -16,6 +16,47 @@ def cmdPair : Cmd
     | _, _ => "bad-op"
   | _ => "bad-op"
 
-def commands : List (String × Cmd) := [("pair", cmdPair)]
+/-- A delivered window after the gate of `parse_event_list`: its timestamps, with `*` appended when no
+    handler is called (`None` returned), `!IndexError` if `events[0]` would raise. -/
+def showGated (dec : Nat → Bool) (w : List Kevent) : String :=
+  match KdVerif.Pairing.gate dec w with
+  | .ok (some v) => natListC (v.map (·.timestamp))
+  | .ok none => natListC (w.map (·.timestamp)) ++ "*"
+  | .error e => "!" ++ e.name
+
+/-- `pairg <trace-domain eids> <decodable eids> <record hex>…` : per event `-` (nothing delivered) or the
+    delivered window through `gate` (see `showGated`). -/
+def cmdPairG : Cmd
+  | doms :: decs :: recs =>
+    match parseNatList doms, parseNatList decs, parseRecs recs with
+    | some ds, some dc, some es =>
+      let outs := KdVerif.Pairing.outputs (fun eid => ds.contains eid) KdVerif.Pairing.PState.empty es
+      "ok " ++ ";".intercalate (outs.map fun
+        | none => "-"
+        | some w => showGated (fun eid => dc.contains eid) w)
+    | _, _, _ => "bad-op"
+  | _ => "bad-op"
+
+def insertSorted (t : Nat) : List Nat → List Nat
+  | [] => [t]
+  | x :: xs => if t < x then t :: x :: xs else if t = x then x :: xs else x :: insertSorted t xs
+
+/-- `pairt <trace-domain eids> <decodable eids> <record hex>…` : per thread id occurring in the history
+    (ascending) `tid:` followed by the windows delivered for that thread (first event's tid), in order,
+    `|`-separated, each as `showGated`; threads separated by `;`. -/
+def cmdPairT : Cmd
+  | doms :: decs :: recs =>
+    match parseNatList doms, parseNatList decs, parseRecs recs with
+    | some ds, some dc, some es =>
+      let ws := KdVerif.Pairing.run (fun eid => ds.contains eid) es
+      let tids := es.foldl (fun acc e => insertSorted e.tid acc) []
+      "ok " ++ ";".intercalate (tids.map fun t =>
+        toString t ++ ":" ++ "|".intercalate
+          ((ws.filter fun w => match w with | x :: _ => x.tid == t | [] => false).map
+            (showGated fun eid => dc.contains eid)))
+    | _, _, _ => "bad-op"
+  | _ => "bad-op"
+
+def commands : List (String × Cmd) := [("pair", cmdPair), ("pairg", cmdPairG), ("pairt", cmdPairT)]
 
 end Driver.Pairing
